@@ -71,11 +71,30 @@ Definition main_activities (root : xml) : list str :=
     | None => if is_main item then (match get_or item [110; 97; 109; 101] with Some n => [n] | None => [] end) else []
     end) (findall root [97; 99; 116; 105; 118; 105; 116; 121] ++ findall root [97; 99; 116; 105; 118; 105; 116; 121; 45; 97; 108; 105; 97; 115]).
 
+(* sorting and duplicate removal (the code goes through sets) *)
+Fixpoint str_leb (a b : str) : bool :=
+  match a, b with [], _ => true | _ :: _, [] => false | x :: a', y :: b' => if x <? y then true else if y <? x then false else str_leb a' b' end.
+Fixpoint ins_str (s : str) (l : list str) : list str := match l with [] => [s] | x :: r => if str_leb s x then s :: l else x :: ins_str s r end.
+Definition sort_strs (l : list str) : list str := fold_right ins_str [] l.
+Fixpoint dedup (l : list str) : list str := match l with [] => [] | x :: r => if existsb (str_eqb x) r then dedup r else x :: dedup r end.
+(* get_main_activity: the only candidate; among several, the first in sorted order that is a declared activity, else the
+   first in sorted order *)
+Definition main_activity (root : xml) (package : option str) (activities : list str) : option str :=
+  match dedup (main_activities root) with
+  | [] => None
+  | [a] => Some (format_value package a)
+  | l => let ms := sort_strs (dedup (map (format_value package) l)) in
+         match filter (fun mname => existsb (str_eqb mname) activities) ms with
+         | g :: _ => Some g
+         | [] => hd_error ms
+         end
+  end.
+
 Record manifest := {
   m_package : option str; m_vcode : option str; m_vname : option str;
   m_permissions : list str; m_uses : list (option str * option Z);
   m_activities : list str; m_services : list str; m_receivers : list str; m_providers : list str;
-  m_main : list str; m_min : option str; m_target : option str; m_max : option str; m_effective : Z;
+  m_main : list str; m_main_one : option str; m_min : option str; m_target : option str; m_max : option str; m_effective : Z;
   m_features : list str; m_libraries : list str }.
 Definition analyse (root : xml) : manifest :=
   let package := first_attr root [109; 97; 110; 105; 102; 101; 115; 116] S_package in
@@ -89,22 +108,18 @@ Definition analyse (root : xml) : manifest :=
                    (find_tags root [117; 115; 101; 115; 45; 112; 101; 114; 109; 105; 115; 115; 105; 111; 110]);
      m_activities := comp [97; 99; 116; 105; 118; 105; 116; 121]; m_services := comp [115; 101; 114; 118; 105; 99; 101]; m_receivers := comp [114; 101; 99; 101; 105; 118; 101; 114]; m_providers := comp [112; 114; 111; 118; 105; 100; 101; 114];
      m_main := main_activities root;
+     m_main_one := main_activity root package (comp [97; 99; 116; 105; 118; 105; 116; 121]);
      m_min := mn; m_target := target; m_max := first_attr root [117; 115; 101; 115; 45; 115; 100; 107] [109; 97; 120; 83; 100; 107; 86; 101; 114; 115; 105; 111; 110];
      m_effective := (let t := match target with Some (c :: r) => Some (c :: r) | _ => mn end in
                      match t with Some v => (match parse_int v with Some k => k | None => 1 end) | None => 1 end);
      m_features := all_attr root [117; 115; 101; 115; 45; 102; 101; 97; 116; 117; 114; 101] [110; 97; 109; 101]; m_libraries := all_attr root [117; 115; 101; 115; 45; 108; 105; 98; 114; 97; 114; 121] [110; 97; 109; 101] |}.
 
-(* ---- canonical order for the comparison (the code goes through sets) ---- *)
-Fixpoint str_leb (a b : str) : bool :=
-  match a, b with [], _ => true | _ :: _, [] => false | x :: a', y :: b' => if x <? y then true else if y <? x then false else str_leb a' b' end.
-Fixpoint ins_str (s : str) (l : list str) : list str := match l with [] => [s] | x :: r => if str_leb s x then s :: l else x :: ins_str s r end.
-Definition sort_strs (l : list str) : list str := fold_right ins_str [] l.
-Fixpoint dedup (l : list str) : list str := match l with [] => [] | x :: r => if existsb (str_eqb x) r then dedup r else x :: dedup r end.
+(* ---- observation ---- *)
 Definition vopt (o : option str) : val := match o with Some s => vlistZ s | None => VNone end.
 Definition vstrs (l : list str) : val := VList (map vlistZ (sort_strs l)).
 Definition obs_manifest (root : xml) : val :=
   let m := analyse root in
   VList [vopt (m_package m); vopt (m_vcode m); vopt (m_vname m); vstrs (dedup (m_permissions m));
          vstrs (map (fun p => match fst p with Some s => s | None => [] end ++ [0] ++ match snd p with Some k => [1; k] | None => [0] end) (m_uses m));
-         vstrs (m_activities m); vstrs (m_services m); vstrs (m_receivers m); vstrs (m_providers m); vstrs (dedup (m_main m));
+         vstrs (m_activities m); vstrs (m_services m); vstrs (m_receivers m); vstrs (m_providers m); vstrs (dedup (m_main m)); vopt (m_main_one m);
          vopt (m_min m); vopt (m_target m); vopt (m_max m); VZ (m_effective m); vstrs (m_features m); vstrs (m_libraries m)].
